@@ -246,15 +246,19 @@ func updateChildren(client *dynamicclientset.ResourceClient, updateStrategy Chil
 			controllerRef := MakeControllerRef(parent)
 			ownerRefs := obj.GetOwnerReferences()
 			hasControllerRef := false
-			for _, ref := range ownerRefs {
+			for i, ref := range ownerRefs {
 				if ref.UID == controllerRef.UID {
+					// The hook may list the parent as a plain owner:
+					// that entry becomes the controller reference.
+					ownerRefs[i] = *controllerRef
 					hasControllerRef = true
 					break
 				}
 			}
 			if !hasControllerRef {
-				obj.SetOwnerReferences(append(ownerRefs, *controllerRef))
+				ownerRefs = append(ownerRefs, *controllerRef)
 			}
+			obj.SetOwnerReferences(ownerRefs)
 
 			data, err := json.Marshal(obj)
 			if err != nil {
